@@ -9,7 +9,7 @@ import core
 VERIF = core.VERIF
 
 RULES = {
-    'C01': 'rapidcheck-generated operation histories (construction, emplace_back in 4 source forms plus converting contiguous sources (std::vector<U> as range, pointer or vector iterator with U another arithmetic type that represents every value exactly: same size other category, wider, narrower), fill, pop_back, erase(pos), erase(first,last), clear, reserve) interpreted totally against each parameter list; oracle: std::vector-of-tuples model compared after every op through operator[], const operator[], iteration, const iteration, front/back, structured bindings, get_fixed_size and the erase return value. NON-TRIVIAL: the history contains an emplace_back after an erase/pop/clear on a vector whose elements had unequal byte extents, or a reserve(n>capacity) on a partly filled vector. DISTINCT: distinct 64-bit hash of (configuration, program).',
+    'C01': 'rapidcheck-generated operation histories (construction, emplace_back in 4 source forms plus converting contiguous sources (std::vector<U> as range, pointer or vector iterator with U another arithmetic type that represents every value exactly: same size other category, wider, narrower), fill, pop_back, erase(pos), erase(first,last), clear, reserve) interpreted totally against each parameter list; oracle: std::vector-of-tuples model compared after every op through operator[], const operator[], iteration, const iteration, front/back, structured bindings, get_fixed_size, the erase return value and a const_iterator that denoted another vector before it was assigned from begin()+i. NON-TRIVIAL: the history contains an emplace_back after an erase/pop/clear on a vector whose elements had unequal byte extents, or a reserve(n>capacity) on a partly filled vector. DISTINCT: distinct 64-bit hash of (configuration, program).',
     'C02': 'same history generator biased to saturation (FILL with a generated composition of the byte budget, last element takes all remaining bytes); oracle after every op: every object address obtained through get<I>/Span::data lies inside the ledger block containing data_begin(), memory_consumption() equals the bytes requested for that block, data_end()-data_begin() <= memory_consumption(), guard zones of all live blocks intact (ASan-poisoned so stray reads abort). NON-TRIVIAL: the vector reached size()==capacity() with stored payload == byte budget (fixed-only lists: reached full) on a list with Amax>1 or a VaryingSize. DISTINCT: hash of (configuration, program).',
     'C03': 'histories incl. copy/move/swap/element extraction on lists with AlignAs (non-monotone alignments, A above and below alignof(T)); ledger blocks are aligned to exactly the storage alignment and not to twice that; oracle after every op: address %% A == 0 for every plain object and every non-empty span of an AlignAs<T,A> parameter in every vector and standalone element. NON-TRIVIAL: the case relocated (erase of a non-last element, reserve>capacity, copy, move, element extraction) at least one element of a list with A>1. DISTINCT: hash of (configuration, program).',
     'C04': 'histories as C03 plus writes; oracle after every op: field extents in parameter order, pairwise disjoint, inside [ref.data_begin(), ref.data_end()), element begin/end = first field begin / last field end, elements in index order inside [data_begin(), data_end()), FixedSize span length == get_fixed_size == constructor argument, VaryingSize span length == count given at emplace, iterator.data()==reference.data_begin(), dereferencing a const-qualified iterator object and a const_iterator of the const vector (operator*, operator->, data()) denotes the same addresses and span lengths as operator[]; emplace_back also from converting contiguous sources of other item size. NON-TRIVIAL: a vector held >=2 elements of different byte size. DISTINCT: hash of (configuration, program).',
@@ -20,17 +20,17 @@ RULES = {
 
 RULES.update({
     'C08': 'histories (construction with arena ids, copy/move construction and assignment, swap under D8, element construction/assignment/swap with allocator arguments) over 5 representative lists x all 8 combinations of the propagate_on_container_* traits x is_always_equal {false,true}; oracle: get_allocator() arena of every operand after every op equals the arena predicted from std::allocator_traits (select_on_container_copy_construction returns a distinguishable arena), every data block located through data_begin()/the element is owned by an equal arena, unequal non-propagating move assignment does not take over the source block and move-constructs every tracked object exactly once; the ledger reports a deallocate through a non-equal arena. NON-TRIVIAL: an assignment or swap between operands of unequal arenas on a stateful allocator kind, or the element-wise move path. DISTINCT: hash of (configuration, program).',
-    'C09': 'histories of copy/move construction, copy/move assignment (targets: default-constructed, empty, smaller, larger, moved-from), swap, self-assignment, self-swap, interleaved with writes/emplace/erase on either operand; oracle: model twin per vector (copy -> independent equal value, move -> target takes the former value, moved-from vectors only cleared/assigned/swapped/destroyed and size()==0 && empty() after clear()), all slots compared with their models after every op so a mutation of one operand showing through in another is seen. NON-TRIVIAL: the source was partly filled (0<size<capacity) or a moved-from vector was reused. DISTINCT: hash of (configuration, program).',
+    'C09': 'histories of copy/move construction, copy/move assignment (targets: default-constructed, empty, smaller, larger, moved-from), swap, self-assignment, self-swap, interleaved with writes/emplace/erase on either operand; oracle: model twin per vector (copy -> independent equal value, move -> target takes the former value, moved-from vectors only cleared/assigned/swapped/destroyed, size()==0 && empty() after clear() and from then on an ordinary empty vector with the capacity it reports; copies of objects with a user-provided copy constructor but trivial move constructor are one generation older than their source), all slots compared with their models after every op so a mutation of one operand showing through in another is seen. NON-TRIVIAL: the source was partly filled (0<size<capacity) or a moved-from vector was reused. DISTINCT: hash of (configuration, program).',
     'C10': 'histories dominated by reserve(n, b) with n below/equal/above capacity and b >= stored payload, on empty, partly filled and full vectors, repeated; oracle: snapshot before/after - capacity never decreases, size, every value and get_fixed_size unchanged; n<=capacity(): capacity, data_begin, memory_consumption unchanged and zero allocator traffic; n>capacity(): capacity()==n; later FILL up to the new limits runs under ASan with poisoned guard zones; fault sub-campaign: fault-enumeration mode with reserve() as the operation that meets the failing allocation (capacity, size and values as before). NON-TRIVIAL: reserve(n>capacity) on a partly filled vector or >=2 effective reserves in one history. DISTINCT: hash of (configuration, program).',
     'C11': 'histories with writes through 6 access paths (operator[], *it, it[k], structured binding, it->, front/back/end()-k) read back through all others after every op (incl. const paths), reference assignment by copy (from reference and const_reference) and by move (rvalue reference), swap, iter_swap, std::rotate / std::reverse / std::swap_ranges on ranges of equal-shaped elements compared with the same algorithm on the model, full iterator arithmetic/comparison table over all index pairs in [0,size], reads through const-qualified iterator objects; lists with a value type whose user-provided assignment operator stamps the object (trivial copy construction/destruction): an object whose value changes in an assignment/swap/permutation must carry a stamp newer than the operation. NON-TRIVIAL: a write, assignment, swap or permutation involving positions i != j. DISTINCT: hash of (configuration, program).',
-    'C12': 'histories of ContiguousElement construction from const_reference / lvalue reference (copy) and rvalue reference (move), copy/move construction (plain and allocator-extended, equal and unequal arenas), copy/move assignment between elements of different varying sizes, swap, element<->reference assignment, writes to element or vector; oracle: element model twin compared through get<I>(element), const element, bound const_reference and structured bindings after every op, vector models compared too (independence), element storage is a ledger block distinct from every vector data block. NON-TRIVIAL: assignment between elements of different varying sizes or unequal arenas, element<->reference assignment, or allocator-extended move with an unequal allocator. DISTINCT: hash of (configuration, program).',
+    'C12': 'histories of ContiguousElement construction from const_reference / lvalue reference (copy) and rvalue reference (move), copy/move construction (plain and allocator-extended, equal and unequal arenas), copy/move assignment between elements of different varying sizes, swap, self assignment and self swap, element<->reference assignment, writes to element or vector; oracle: element model twin compared through get<I>(element), const element, bound const_reference and structured bindings after every op, vector models compared too (independence), element storage is a ledger block distinct from every vector data block. NON-TRIVIAL: assignment between elements of different varying sizes or unequal arenas, element<->reference assignment, or allocator-extended move with an unequal allocator. DISTINCT: hash of (configuration, program).',
     'C13': 'pairs/triples of vectors and elements built by emplace, CLONE (same logical content, different capacity/arena/memory junk), MUTATE (exactly one item changed), pop/erase (strict prefixes), incl. empty operands and different fixed sizes; oracle: ==/!= in every form (vector/vector incl. another allocator type, reference x const_reference x value_type in all 9 combinations) equals model equality, reflexive, symmetric, != is the negation; every program is executed twice on memory with different junk patterns and must give identical results; one element in four is flat (all objects equal) and the second operand is preferably one with as many objects split differently over the fields, so that operands with identical byte images and different contents occur. NON-TRIVIAL: equal-content operands in distinct memory, strict-prefix pairs, or elements of different sizes. DISTINCT: hash of (configuration, program).',
     'C14': 'same operand generator with value domain {0,1,2} (ties in leading fields); oracle (laws only, from the library\'s own answers): a>b == b<a, a<=b == !(b<a), a>=b == !(a<b), irreflexive, asymmetric, transitive over triples, a<b => a!=b, a==b => neither ordered, identical answers for all operand kinds, vector< equals std::lexicographical_compare over element references under the element-level <; executed twice with different memory junk. NON-TRIVIAL: a strictly ordered pair with a tie in some field, or ordered vectors. DISTINCT: hash of (configuration, program).',
     'C16': 'C01 histories plus swap and move construction; oracle: addresses of every field of every surviving element, data_begin(), capacity() and the ledger allocation counters snapshotted before each op: emplace_back within capacity, pop_back, clear, reserve(n<=capacity) keep everything and allocate nothing; erase keeps the elements in front of the erased position and allocates nothing; swap / move construction allocate nothing and hand over the block unchanged. NON-TRIVIAL: >=3 address-preserving ops on a vector with >=2 elements including an erase in the middle of >=3 elements. DISTINCT: hash of (configuration, program).',
     'C18': 'ways to become empty (default-constructed, capacity 0, never filled, emptied by pop_back/erase/clear, copy/move of an empty vector) followed by clear, erase(begin,end), reserve, compare, copy, swap, destroy, reserve+emplace; oracle: size()==0, empty(), begin()==end(), data_begin()==data_end() and null or inside/one past the ledger block, model equality afterwards, no sanitizer report (guards poisoned), identical behaviour under two different memory junk patterns. NON-TRIVIAL: an emplace_back into a vector that was empty after a history (or has capacity 0 / a VaryingSize list). DISTINCT: hash of (configuration, program).',
 })
 
-RULES['C17'] = 'rapidcheck generates a history prefix and a target operation from {construction, reserve, copy construction, copy assignment, move assignment, element construction from a reference, element copy/move construction, element copy/move assignment}; a counting run learns that the target performs m allocations, then FOR EVERY k in 1..m the case is re-run in a forked child with the k-th allocation throwing std::bad_alloc (fault enumeration per case, exhaustive over k); oracle: the child neither terminates nor crashes; no ledger event (double free, wrong size/arena) and no lifetime event; operands the operation does not assign to (incl. the source of reserve / copy construction) equal their pre-operation model; assigned-to operands are valid: iteration yields size() elements, live tracked objects == reachable ones, a fresh value can be move-assigned to them and read back; after destroying everything the ledger and the object registry are empty. evaluations = generated (prefix,target) cases, each expanded into m injected runs (reported as fault_injected_runs). NON-TRIVIAL: the target op performed >=2 allocations (VaryingSize lists: block + address table) or >=1 on a list holding tracked objects. DISTINCT: hash of (configuration, program).'
+RULES['C17'] = 'rapidcheck generates a history prefix and a target operation from {construction, reserve, copy construction, copy assignment, move assignment, element construction from a reference, element copy/move construction, element copy/move assignment}; a counting run learns that the target performs m allocations, then FOR EVERY k in 1..m the case is re-run in a forked child with the k-th allocation throwing std::bad_alloc (fault enumeration per case, exhaustive over k); oracle: the child neither terminates nor crashes; no ledger event (double free, wrong size/arena) and no lifetime event; operands the operation does not assign to (incl. the source of reserve / copy construction) equal their pre-operation model; assigned-to operands are valid: iteration yields size() elements, live tracked objects == reachable ones, a fresh value can be assigned to them (stealing move, move from an unequal allocator, or copy - chosen by the case) and read back; after destroying everything the ledger and the object registry are empty. evaluations = generated (prefix,target) cases, each expanded into m injected runs (reported as fault_injected_runs). NON-TRIVIAL: the target op performed >=2 allocations (VaryingSize lists: block + address table) or >=1 on a list holding tracked objects. DISTINCT: hash of (configuration, program).'
 
 LEVEL_NOTE = {}
 
